@@ -162,7 +162,12 @@ def batcher_obj(ctx, reg_cls=None):
     B = ctx.fresh("batch_size", "int")
     shuffle = ctx.fresh("shuffle", "bool")
     rng = _REG_HOLDER["reg"].SymGenerator()
-    o = Obj(SB, dict(train_indices=train, val_indices=val, batch_size=B, shuffle=shuffle, _rng=rng))
+    # every field the constructor sets is present: `indices` is arange(num) with num = |train| + |val| (the split is a partition,
+    # SimpleBatcher.__init__'s contract), so a method that reads the wrong one of the three index arrays fails its postcondition
+    num = S(train.shape[0]) + S(val.shape[0])
+    nt = lift(num)
+    indices = npm.index_array(num, lambda i: S(i), lambda v: z3.And(lift(v) >= 0, lift(v) < nt), lambda v: lift(v), name="arange")
+    o = Obj(SB, dict(train_indices=train, val_indices=val, indices=indices, batch_size=B, shuffle=shuffle, _rng=rng))
     return o
 
 
